@@ -281,6 +281,17 @@ class VMap:
         return "VMap(%s,%s)" % (self.dom, self.val)
 
 
+class VComp:
+    """family {elt(k) : k in dom(M), conds(k)} produced by a comprehension over a symbolic map"""
+
+    def __init__(self, m, k, elt, conds):
+        self.m = m
+        self.k = k
+        self.elt = elt
+        self.conds = conds
+        self.from_comp = True
+
+
 class VOpt:
     """None or a value; resolved by branching at the point of use."""
 
